@@ -6,7 +6,12 @@ package stream
 // all others are checked differentially (boolean spec on the real packets + the real decoder).
 
 import (
+	"encoding/hex"
+
 	"github.com/bluenviron/gortsplib/v5/pkg/format"
+	mcac3 "github.com/bluenviron/mediacommon/v2/pkg/codecs/ac3"
+	mcmpeg1audio "github.com/bluenviron/mediacommon/v2/pkg/codecs/mpeg1audio"
+	mcopus "github.com/bluenviron/mediacommon/v2/pkg/codecs/opus"
 
 	"github.com/bluenviron/mediamtx/internal/unit"
 )
@@ -20,7 +25,7 @@ func (g *vC23Gen) h264NALU(size int) []byte {
 
 func vC23GenH264(g *vC23Gen, max int, last bool) (unit.Payload, string) {
 	if vC23Big && last {
-		n := g.h264NALU(vPick(g.r, []int{65535, 65536, 65537, 65538, 70001, 131072}))
+		n := g.h264NALU(vPick(g.r, []int{65535, 65536, 65537, 65538, 70001}))
 		n[0] = n[0]&0x60 | vPick(g.r, []byte{1, 5})
 		return unit.PayloadH264{n}, "big"
 	}
@@ -34,10 +39,6 @@ func vC23GenH264(g *vC23Gen, max int, last bool) (unit.Payload, string) {
 		case 1: // RTP-only NAL unit type in a single NAL unit packet
 			n := g.h264NALU(1 + g.r.Intn(max-1))
 			n[0] = n[0]&0x60 | byte(24+g.r.Intn(6))
-			if n[0]&0x1f == 24 || n[0]&0x1f == 28 {
-				// would be parsed as STAP-A / FU-A
-				return unit.PayloadH264{n}, "outside-precondition"
-			}
 			return unit.PayloadH264{n}, "outside-precondition"
 		case 2: // start code inside a fragmented NAL unit
 			n := g.h264NALU(max + 8 + g.r.Intn(max))
@@ -91,10 +92,383 @@ func vC23GenH264(g *vC23Gen, max int, last bool) (unit.Payload, string) {
 	}
 }
 
+// size class shared by the single-buffer formats
+func (g *vC23Gen) sizeClass(max int) (int, string) {
+	if vC23Big {
+		return vPick(g.r, []int{65535, 65536, 65537, 70001}), "big"
+	}
+	s := g.size(max)
+	if s <= max/2 {
+		return s, "small"
+	}
+	return s, "boundary"
+}
+
+func (g *vC23Gen) h265NALU(size int) []byte {
+	if size < 2 {
+		size = 2
+	}
+	typ := vPick(g.r, []byte{0, 1, 1, 1, 8, 9, 16, 19, 19, 20, 21, 32, 33, 34, 35, 39, 39, 40, 2, 3})
+	b := g.fill(size)
+	b[0] = typ << 1
+	b[1] = 1
+	return b
+}
+
+func vC23GenH265(g *vC23Gen, max int, _ bool) (unit.Payload, string) {
+	k := 1 + g.r.Intn(4)
+	var au [][]byte
+	cl := "small"
+	for i := 0; i < k; i++ {
+		s, c := g.sizeClass(max)
+		if c != "small" {
+			cl = c
+		}
+		au = append(au, g.h265NALU(s))
+		if c == "big" {
+			break
+		}
+	}
+	return unit.PayloadH265(au), cl
+}
+
+// an OBU without size field: header byte (type, no extension, has_size = 0) + data
+func vC23GenAV1(g *vC23Gen, max int, _ bool) (unit.Payload, string) {
+	k := 1 + g.r.Intn(3)
+	var tu [][]byte
+	cl := "small"
+	for i := 0; i < k; i++ {
+		s, c := g.sizeClass(max)
+		if c != "small" {
+			cl = c
+		}
+		b := g.fill(s)
+		typ := vPick(g.r, []byte{1, 3, 4, 5, 6, 6, 6, 2})
+		b[0] = typ << 3
+		tu = append(tu, b)
+		if c == "big" {
+			break
+		}
+	}
+	return unit.PayloadAV1(tu), cl
+}
+
+func vC23GenVP9(g *vC23Gen, max int, _ bool) (unit.Payload, string) {
+	s, c := g.sizeClass(max)
+	hdr := []byte{0x82, 0x49, 0x83, 0x42, 0x0, 0x77, 0xf0, 0x32, 0x34} // key frame header of the in-tree test
+	if g.r.Chance(1, 3) {
+		hdr = []byte{0x86, 0x00, 0x40, 0x92, 0x9c, 0x50, 0x00, 0x12, 0x00} // non-key frame
+	}
+	b := append(append([]byte{}, hdr...), g.fill(s)...)
+	return unit.PayloadVP9(b), c
+}
+
+func vC23GenVP8(g *vC23Gen, max int, _ bool) (unit.Payload, string) {
+	s, c := g.sizeClass(max)
+	b := g.fill(s + 3)
+	if g.r.Bool() {
+		b[0] &^= 1 // key frame
+	} else {
+		b[0] |= 1
+	}
+	return unit.PayloadVP8(b), c
+}
+
+func vC23GenMPEG4Video(g *vC23Gen, max int, _ bool) (unit.Payload, string) {
+	s, c := g.sizeClass(max)
+	b := g.fill(s + 4)
+	switch g.r.Intn(3) {
+	case 0:
+		copy(b, []byte{0, 0, 1, 0xB6}) // VOP
+	case 1:
+		copy(b, []byte{0, 0, 1, 0xB3}) // GOV: the remuxer prepends the configuration
+	}
+	return unit.PayloadMPEG4Video(b), c
+}
+
+func vC23GenMPEG1Video(g *vC23Gen, max int, _ bool) (unit.Payload, string) {
+	k := 1 + g.r.Intn(4)
+	var f []byte
+	cl := "small"
+	for i := 0; i < k; i++ {
+		s, c := g.sizeClass(max)
+		if c != "small" {
+			cl = c
+		}
+		code := byte(1 + g.r.Intn(0xAF))
+		switch {
+		case i == 0 && g.r.Chance(1, 3):
+			code = 0 // picture header: temporal reference and type follow
+		case i == 0 && g.r.Chance(1, 3):
+			code = 0xB8 // GOP
+		}
+		seg := append([]byte{0, 0, 1, code}, g.fill(s+2)...)
+		f = append(f, seg...)
+		if c == "big" {
+			break
+		}
+	}
+	return unit.PayloadMPEG1Video(f), cl
+}
+
+func vC23GenMJPEG(g *vC23Gen, max int, _ bool) (unit.Payload, string) {
+	s, c := g.sizeClass(max)
+	hdr, err := hex.DecodeString(vC23JPEGHeaderHex)
+	if err != nil {
+		panic(err)
+	}
+	scan := make([]byte, s)
+	for i := range scan {
+		scan[i] = byte(g.r.Intn(255)) // never 0xff
+	}
+	img := append(append(hdr, scan...), 0xff, 0xd9)
+	return unit.PayloadMJPEG(img), c
+}
+
+// Opus packets: TOC byte + data; durations differ per TOC configuration
+func vC23GenOpus(g *vC23Gen, max int, _ bool) (unit.Payload, string) {
+	k := 1 + g.r.Intn(4)
+	var pp [][]byte
+	for i := 0; i < k; i++ {
+		s := 1 + g.r.Intn(max)
+		b := g.fill(s)
+		b[0] = byte(g.r.Intn(32))<<3 | byte(g.r.Intn(2))<<2 | byte(g.r.Intn(3)) // config, stereo, code 0..2
+		pp = append(pp, b)
+	}
+	return unit.PayloadOpus(pp), "boundary"
+}
+
+func vC23GenFrames(g *vC23Gen, max int) ([][]byte, string) {
+	k := 1 + g.r.Intn(4)
+	var aus [][]byte
+	cl := "small"
+	for i := 0; i < k; i++ {
+		s, c := g.sizeClass(max)
+		if c == "big" {
+			s = 8000 // 13-bit AU size field
+		}
+		if s > 8191 {
+			s = 8191
+		}
+		if c != "small" {
+			cl = c
+		}
+		aus = append(aus, g.fill(s))
+	}
+	return aus, cl
+}
+
+func vC23GenMPEG4Audio(g *vC23Gen, max int, _ bool) (unit.Payload, string) {
+	aus, cl := vC23GenFrames(g, max)
+	return unit.PayloadMPEG4Audio(aus), cl
+}
+
+func vC23GenLATM(g *vC23Gen, max int, _ bool) (unit.Payload, string) {
+	s, c := g.sizeClass(max)
+	return unit.PayloadMPEG4AudioLATM(g.fill(s)), c
+}
+
+// MPEG-1 audio frames: a valid header, the length it announces
+func vC23GenMPEG1Audio(g *vC23Gen, _ int, _ bool) (unit.Payload, string) {
+	k := 1 + g.r.Intn(3)
+	var frames [][]byte
+	for i := 0; i < k; i++ {
+		hdr := vPick(g.r, [][]byte{
+			{0xff, 0xfb, 0x90, 0x00}, // layer III 128 kbit/s 44.1 kHz
+			{0xff, 0xfb, 0x14, 0x00}, // layer III 32 kbit/s 48 kHz
+			{0xff, 0xfd, 0x84, 0x00}, // layer II 128 kbit/s 48 kHz
+			{0xff, 0xfd, 0x14, 0x00}, // layer II 32 kbit/s 48 kHz
+			{0xff, 0xfb, 0x92, 0x00}, // layer III 128 kbit/s 44.1 kHz padded
+		})
+		var h mcmpeg1audio.FrameHeader
+		buf := append(append([]byte{}, hdr...), make([]byte, 8)...)
+		if err := h.Unmarshal(buf); err != nil {
+			panic(err)
+		}
+		f := g.fill(h.FrameLen())
+		copy(f, hdr)
+		frames = append(frames, f)
+	}
+	return unit.PayloadMPEG1Audio(frames), "boundary"
+}
+
+// AC-3 syncframes: 0b 77, crc, fscod/frmsizecod; the length the header announces
+func vC23GenAC3(g *vC23Gen, max int, _ bool) (unit.Payload, string) {
+	k := 1 + g.r.Intn(3)
+	var frames [][]byte
+	for i := 0; i < k; i++ {
+		// 128 .. 512 bytes; with a realistic maximum also the 1536 and 1792 byte frames of 384/448 kbit/s
+		code := byte(vPick(g.r, []int{0, 0, 2, 2, 4, 8, 12, 16}))
+		if max >= 1200 {
+			code = byte(vPick(g.r, []int{0, 16, 28, 30, 32}))
+		}
+		hdr := []byte{0x0b, 0x77, 1, 2, code /* fscod 0 = 48 kHz */, 0x40, 0x43, 0xe1}
+		var si mcac3.SyncInfo
+		if err := si.Unmarshal(hdr); err != nil {
+			panic(err)
+		}
+		f := g.fill(si.FrameSize())
+		copy(f, hdr)
+		frames = append(frames, f)
+	}
+	return unit.PayloadAC3(frames), "boundary"
+}
+
+func vC23GenG711(g *vC23Gen, max int, _ bool) (unit.Payload, string) {
+	s, c := g.sizeClass(max)
+	return unit.PayloadG711(g.fill(s)), c
+}
+
+func vC23GenLPCM(g *vC23Gen, max int, _ bool) (unit.Payload, string) {
+	s, c := g.sizeClass(max)
+	s = (s + 3) / 4 * 4 // whole sample frames: 16 bit, 2 channels
+	return unit.PayloadLPCM(g.fill(s)), c
+}
+
+func vC23GenKLV(g *vC23Gen, max int, _ bool) (unit.Payload, string) {
+	s, c := g.sizeClass(max)
+	key := []byte{0x06, 0x0e, 0x2b, 0x34, 0x01, 0x01, 0x01, 0x01, 0x01, 0x02, 0x03, 0x04, 0x05, 0x06, 0x07, 0x08}
+	var l []byte
+	switch {
+	case s < 128:
+		l = []byte{byte(s)}
+	case s < 256:
+		l = []byte{0x81, byte(s)}
+	case s < 65536:
+		l = []byte{0x82, byte(s >> 8), byte(s)}
+	default:
+		l = []byte{0x83, byte(s >> 16), byte(s >> 8), byte(s)}
+	}
+	b := append(append(append([]byte{}, key...), l...), g.fill(s)...)
+	return unit.PayloadKLV(b), c
+}
+
+func vC23GenFLAC(g *vC23Gen, max int, _ bool) (unit.Payload, string) {
+	s, c := g.sizeClass(max)
+	return unit.PayloadFLAC(g.fill(s)), c
+}
+
+func vC23OpusDeltas(p unit.Payload) []int64 {
+	var out []int64
+	acc := int64(0)
+	for _, pkt := range p.(unit.PayloadOpus) {
+		out = append(out, acc)
+		acc += mcopus.PacketDuration2(pkt)
+	}
+	return out
+}
+
 func vC23Formats() []*vC23Fmt {
 	return []*vC23Fmt{
 		{id: 0, name: "h264", avail: true,
 			mk:  func() format.Format { return &format.H264{PayloadTyp: 96, PacketizationMode: 1} },
 			gen: vC23GenH264},
+		{id: 1, name: "h265", avail: true,
+			mk:  func() format.Format { return &format.H265{PayloadTyp: 96} },
+			gen: vC23GenH265},
+		{id: 2, name: "av1", avail: true,
+			mk:  func() format.Format { return &format.AV1{PayloadTyp: 96} },
+			gen: vC23GenAV1},
+		{id: 3, name: "vp9", avail: true,
+			mk:  func() format.Format { return &format.VP9{PayloadTyp: 96} },
+			gen: vC23GenVP9},
+		{id: 4, name: "vp8", avail: true,
+			mk:  func() format.Format { return &format.VP8{PayloadTyp: 96} },
+			gen: vC23GenVP8},
+		{id: 5, name: "mpeg4video", avail: true,
+			mk:  func() format.Format { return &format.MPEG4Video{PayloadTyp: 96, ProfileLevelID: 1} },
+			gen: vC23GenMPEG4Video},
+		{id: 6, name: "mpeg1video", avail: true,
+			mk:  func() format.Format { return &format.MPEG1Video{} },
+			gen: vC23GenMPEG1Video},
+		{id: 7, name: "mjpeg", avail: true,
+			mk:  func() format.Format { return &format.MJPEG{} },
+			gen: vC23GenMJPEG, minMax: 256},
+		{id: 8, name: "opus", avail: true,
+			mk:     func() format.Format { return &format.Opus{PayloadTyp: 96, ChannelCount: 2} },
+			gen:    vC23GenOpus,
+			deltas: "opus"},
+		{id: 9, name: "mpeg4audio", avail: true,
+			mk: func() format.Format {
+				return &format.MPEG4Audio{PayloadTyp: 96, SizeLength: 13, IndexLength: 3, IndexDeltaLength: 3}
+			},
+			gen: vC23GenMPEG4Audio, deltas: "frames", spf: 1024},
+		{id: 10, name: "mpeg4audiolatm", avail: true,
+			mk:  func() format.Format { return &format.MPEG4AudioLATM{PayloadTyp: 96} },
+			gen: vC23GenLATM},
+		{id: 11, name: "mpeg1audio", avail: true,
+			mk:  func() format.Format { return &format.MPEG1Audio{} },
+			gen: vC23GenMPEG1Audio, deltas: "frames", spf: 1152},
+		{id: 12, name: "ac3", avail: true,
+			mk:  func() format.Format { return &format.AC3{PayloadTyp: 96, SampleRate: 48000, ChannelCount: 2} },
+			gen: vC23GenAC3, deltas: "frames", spf: 1536},
+		{id: 13, name: "g711", avail: true, bytejoin: true,
+			mk:  func() format.Format { return &format.G711{PayloadTyp: 0, MULaw: true, SampleRate: 8000, ChannelCount: 1} },
+			gen: vC23GenG711, deltas: "bytes", spf: 1},
+		{id: 14, name: "lpcm", avail: true, bytejoin: true,
+			mk: func() format.Format {
+				return &format.LPCM{PayloadTyp: 96, BitDepth: 16, SampleRate: 48000, ChannelCount: 2}
+			},
+			gen: vC23GenLPCM, deltas: "bytes", spf: 4},
+		{id: 15, name: "klv", avail: true,
+			mk:  func() format.Format { return &format.KLV{PayloadTyp: 96} },
+			gen: vC23GenKLV},
+		{id: 16, name: "flac", avail: true,
+			mk:  func() format.Format { return &format.Generic{PayloadTyp: 96, RTPMa: "FLAC/48000", ClockRat: 48000} },
+			gen: vC23GenFLAC},
+		{id: 17, name: "generic-no-encoder", avail: false,
+			mk:  func() format.Format { return &format.Generic{PayloadTyp: 97, RTPMa: "PRIVATE/90000", ClockRat: 90000} },
+			gen: vC23GenFLAC},
 	}
+}
+
+// Directed scenarios, run first on every run: the witnesses of the findings (KNOWN_FINDINGS.jsonl) and the
+// boundary shapes of the modelled packetizer at fixed maxima.
+func vC23Directed(g *vC23Gen, fmts []*vC23Fmt) []vC23Scenario {
+	byName := map[string]*vC23Fmt{}
+	for _, f := range fmts {
+		byName[f.name] = f
+	}
+	obu := func(n int) []byte { b := g.fill(n); b[0] = 6 << 3; return b }
+	nal := func(n int) []byte { b := g.fill(n); b[0] = 0x41; return b }
+	ac3 := func(code byte) []byte {
+		hdr := []byte{0x0b, 0x77, 1, 2, code, 0x40, 0x43, 0xe1}
+		var si mcac3.SyncInfo
+		if err := si.Unmarshal(hdr); err != nil {
+			panic(err)
+		}
+		f := g.fill(si.FrameSize())
+		copy(f, hdr)
+		return f
+	}
+	klv := func(n int) []byte {
+		key := []byte{0x06, 0x0e, 0x2b, 0x34, 0x01, 0x01, 0x01, 0x01, 0x01, 0x02, 0x03, 0x04, 0x05, 0x06, 0x07, 0x08}
+		return append(append(key, byte(n)), g.fill(n)...)
+	}
+	var out []vC23Scenario
+	// known finding (gortsplib): the first OBU fills the packet exactly, the second one is flagged as its continuation
+	out = append(out, vC23Scenario{f: byName["av1"], max: 37, fixed: []unit.Payload{unit.PayloadAV1{obu(35), obu(38)}}})
+	// fixed 1f79521: AC-3 frames larger than the maximum (1792 and 1536 bytes with the default maximum of 1440)
+	out = append(out, vC23Scenario{f: byName["ac3"], max: 1440, fixed: []unit.Payload{unit.PayloadAC3{ac3(32)}, unit.PayloadAC3{ac3(30), ac3(0)}}})
+	out = append(out, vC23Scenario{f: byName["ac3"], max: 100, fixed: []unit.Payload{unit.PayloadAC3{ac3(4)}}})
+	// fixed 03c5c4c: a KLV unit in several packets
+	out = append(out, vC23Scenario{f: byName["klv"], max: 33, fixed: []unit.Payload{unit.PayloadKLV(klv(94)), unit.PayloadKLV(klv(10))}})
+	// H.264 at every size around the single / STAP-A / FU-A boundaries for three maxima
+	for _, max := range []int{16, 100, 1460} {
+		var pp []unit.Payload
+		for d := -4; d <= 3; d++ {
+			pp = append(pp, unit.PayloadH264{nal(max + d)})
+		}
+		out = append(out, vC23Scenario{f: byName["h264"], max: max, fixed: pp})
+		pp = nil
+		for d := -2; d <= 2; d++ {
+			// two NAL units around one STAP-A: 1 + 2 + a + 2 + b = max + d
+			a := (max - 5) / 2
+			pp = append(pp, unit.PayloadH264{nal(a), nal(max + d - 5 - a)})
+			// k * (max - 2) + 1 + d: around a whole number of FU-A fragments
+			pp = append(pp, unit.PayloadH264{nal(2*(max-2) + 1 + d)})
+		}
+		out = append(out, vC23Scenario{f: byName["h264"], max: max, fixed: pp})
+	}
+	return out
 }
